@@ -6,7 +6,10 @@
 
    Why each class is order-insensitive:
      SortedAfter      keys/items are only collected and then sorted with a comparator that is
-                      total on them before any order-sensitive use       (sort_perm_invariant + ComparatorProofs)
+                      total on them before any order-sensitive use       (sort_perm_invariant + ComparatorProofs);
+                      T4 re-checks on every run that a sort.* call still follows the loop in the same
+                      function before its next map-range loop            (sorted_after_sites_have_sort)
+     SortedLater      same, but the sort is in another function or after a sibling loop (hand-asserted)
      CommutativeFold  set insert / OR / max / counter / list used as a set  (fold_comm_invariant)
      PerKeyWrite      an iteration only writes state indexed by its own key (map_writes_invariant)
      DiagnosticsThenSorted  only emits diagnostics that carry a location; SortableMsgs orders them
@@ -22,6 +25,7 @@ Open Scope string_scope.
 
 Inductive site_class :=
 | SortedAfter (how : string)
+| SortedLater (whr : string)
 | CommutativeFold (what : string)
 | PerKeyWrite (what : string)
 | DiagnosticsThenSorted (what : string)
@@ -59,11 +63,11 @@ Definition classification : list (site * site_class) := [
   ((L, "(*linkerContext).computeChunks", "jsChunks", 0), SortedAfter "sort.Strings(sortedKeys)");
   ((L, "(*linkerContext).computeCrossChunkDependencies", "chunk.filesWithPartsInChunk", 0), CommutativeFold "set inserts into chunkMeta.imports/dynamicImports; import-record rewrites are per file");
   ((L, "(*linkerContext).computeCrossChunkDependencies", "chunkMeta.dynamicImports", 0), SortedAfter "sort.Ints(sortedDynamicImports)");
-  ((L, "(*linkerContext).computeCrossChunkDependencies", "chunkMeta.imports", 0), SortedAfter "items appended per other chunk are sorted by crossChunkImportItemArray (alias) and stableRefArray before use; exports is a set");
+  ((L, "(*linkerContext).computeCrossChunkDependencies", "chunkMeta.imports", 0), SortedLater "items appended per other chunk are sorted by crossChunkImportItemArray (alias) and stableRefArray before use; exports is a set");
   ((L, "(*linkerContext).computeCrossChunkDependencies", "part.SymbolUses", 0), CommutativeFold "set inserts into chunkMeta.imports");
   ((L, "(*linkerContext).findImportedPartsInJSOrder", "chunk.filesWithPartsInChunk", 0), SortedAfter "chunkOrderArray (distance, stable source index)");
   ((L, "(*linkerContext).generateChunkJS", "chunkRepr.exportsToOtherChunks", 0), SortedAfter "sort.Strings(aliases)");
-  ((L, "(*linkerContext).generateChunkJS", "resolvedExports", 0), SortedAfter "sort.Strings(aliases)");
+  ((L, "(*linkerContext).generateChunkJS", "resolvedExports", 0), SortedLater "sort.Strings(aliases) after the sibling else-branch loop");
   ((L, "(*linkerContext).mangleLocalCSS", "localNames", 0), SortedAfter "StableSymbolCountArray");
   ((L, "(*linkerContext).mangleProps", "js_lexer.Keywords", 0), CommutativeFold "set insert");
   ((L, "(*linkerContext).mangleProps", "mangleCache", 0), CommutativeFold "set insert");
@@ -85,7 +89,7 @@ Definition classification : list (site * site_class) := [
   ((L, "(*linkerContext).sortedCrossChunkExportItems", "exportRefs", 0), SortedAfter "stableRefArray");
   ((L, "(*linkerContext).sortedCrossChunkImports", "importsFromOtherChunks", 0), SortedAfter "crossChunkImportArray (chunk index = map key) and crossChunkImportItemArray per chunk");
   ((L, "(*linkerContext).validateComposesFromProperties", "composes.Properties", 0), DiagnosticsThenSorted "properties[keyText] per key; warnings carry the property location");
-  ((R, "(*MinifyRenamer).AccumulateSymbolUseCounts", "symbolUses", 0), SortedAfter "top-level symbols are appended then sorted by StableSymbolCountArray; nested slots are atomic counters");
+  ((R, "(*MinifyRenamer).AccumulateSymbolUseCounts", "symbolUses", 0), SortedLater "top-level symbols are appended then sorted by StableSymbolCountArray in linker.renameSymbolsInChunk; nested slots are atomic counters");
   ((R, "(*NumberRenamer).AssignNamesByScope", "nestedScopes", 0), PerKeyWrite "one goroutine per source index, names of that file only");
   ((R, "(*NumberRenamer).assignNamesInScope", "scope.Members", 0), SortedAfter "sort.Ints(inner indices)");
   ((R, "AssignNestedScopeSlots", "moduleScope.Members", 0), PerKeyWrite "symbols[inner].NestedScopeSlot per member");
@@ -142,3 +146,9 @@ Definition known_are_present_and_bad : bool :=
 Definition stale_entries : list site :=
   map fst (filter (fun kc => negb (existsb (site_eqb (fst kc)) map_sites)) classification).
 Definition all_ordered : bool := forallb site_ordered map_sites.
+(* machine-checked part of the SortedAfter class *)
+Definition sorted_after_checked : bool :=
+  forallb (fun s => match class_of s with
+                    | Some (SortedAfter _) => existsb (site_eqb s) sites_with_sort_after
+                    | _ => true
+                    end) map_sites.
